@@ -202,7 +202,83 @@ def run_config(splits, kinds, modname=None):
     return res
 
 
+def deep_greenlet_stack():
+    """A running stack that is deeper than the recursion limit although no greenlet's own recursion is: the child is
+    started while its parent is shallow, the parent then recurses deep and switches in, the child recurses deep too.
+    Returns problems."""
+    if greenlet is None:
+        return []
+    from stackscope import extract, extract_since, extract_until, StackSlice
+    problems = []
+    n = int(sys.getrecursionlimit() * 0.7)
+    main = greenlet.getcurrent()
+    box = {}
+
+    def walk_all():
+        out = []
+        g = greenlet.getcurrent()
+        f = sys._getframe(1)
+        while True:
+            while f is not None:
+                out.append(f)
+                f = f.f_back
+            g = g.parent
+            while g is not None and g.gr_frame is None:
+                g = g.parent
+            if g is None:
+                break
+            f = g.gr_frame
+        out.reverse()
+        return out
+
+    def child_deep(d):
+        if d > 0:
+            return child_deep(d - 1)
+        truth = walk_all()
+        me = sys._getframe(0)
+        for tag, fn, exp in (
+                ("extract_since(None)", lambda: extract_since(None, with_contexts=False), None),
+                ("extract(StackSlice())", lambda: extract(StackSlice(), with_contexts=False), None),
+                ("extract_since(<frame in the parent greenlet>)", lambda: extract_since(box["pframe"], with_contexts=False), "from_p"),
+                ("extract_until(me)", lambda: extract_until(me, with_contexts=False), "until_me")):
+            try:
+                st = fn()
+            except Exception as ex:
+                problems.append("%s raised %r" % (tag, ex))
+                continue
+            got = [f.pyframe for f in st.frames]
+            # the lambda / this function's tail: compare up to `me`
+            if me in got:
+                got = got[:got.index(me) + 1]
+            want = truth
+            if exp == "from_p":
+                want = truth[truth.index(box["pframe"]):]
+            if got != want or st.error is not None:
+                problems.append("%s: %d frames, the running stack (through greenlet parents) has %d; error %r" % (tag, len(got), len(want), st.error))
+        return "done"
+
+    def child():
+        main.switch("started")      # started while the parent is shallow
+        return child_deep(n)
+
+    def parent_deep(d, g):
+        if d > 0:
+            return parent_deep(d - 1, g)
+        box["pframe"] = sys._getframe(0)
+        return g.switch()
+    g = greenlet.greenlet(child)
+    g.switch()
+    parent_deep(n, g)
+    return problems
+
+
 def run(ctx):
+    if greenlet is not None and ctx.shard == 0:
+        problems = deep_greenlet_stack()
+        ctx.count("evaluations", 4)
+        ctx.count("deep_greenlet_stack")
+        if problems:
+            ctx.violation({"deep_greenlets": True}, "; ".join(problems)[:1200], "deep")
     for idx, (splits, kinds) in enumerate(configs(ctx.tier)):
         if not ctx.mine(idx):
             continue
@@ -222,5 +298,11 @@ def run(ctx):
 
 
 def replay(case):
+    if case.get("deep_greenlets"):
+        return [{"detail": p} for p in deep_greenlet_stack()]
+    return _replay_config(case)
+
+
+def _replay_config(case):
     res = run_config(case["splits"], case["kinds"], case.get("module"))
     return [{"detail": "%r: got %r expected %r error %s" % b} for b in res["bad"][:5]]
